@@ -24,7 +24,7 @@ import (
 func init() {
 	register(stream{
 		name: "chain",
-		rule: "real signed delegations (sealed, then decoded) and invocations over a pool of 5 Ed25519 principals, checked with ExecutionAllowed / ExecutionAllowedWithArgsHook against a map-backed loader. Families: (principals) every chain of ≤ K links (K=2 quick, 3 thorough) over every (issuer, audience, subject∈{0,1,2,absent}) assignment × every invocation (issuer, subject) with a varying audience; (commands) conforming chains of 1–3 links with every assignment of a 6-command lattice (top, parent, child, sibling, shared textual prefix) to invocation and links; (time) every present/absent/past/future combination of not-before and expiration on the invocation and each link; (policy) constraining statements distributed over every link × argument maps, with and without an argument hook (replacing, failing); (random) chains of ≤ 8 (40 thorough) links with 0–2 deviations of any kind at any position, missing and duplicated proofs, irrelevant fields varied; (histories) the same invocation token validated several times while the loader's content, the argument hook and the wall clock (a bound two seconds away) change between validations. Added later: every scenario is decided FIVE ways on one token (twice in a row; through the hook entry point with an identity hook; with a hook that first validates an unrelated invocation; with a hook that first validates the scenario's repaired twin) and each verdict is held against the model; after construction the caller adds a key to the Args value it handed in (the token must not change); (twins) principals 5–9 = the key bytes of 0–4 under another key-type codec at every naming position; (key-types) RSA, P-256 and secp256k1 principals at every role, delegations decoded and as constructed; (command-pairs) every ordered pair of valid commands ≤ 4 (5) bytes over {/,a,b} as delegated/invoked and root/leaf, decided one after the other; (after-root, variant-cid, long-then-cut) proofs listed after the root, links named by another CID over the same digest, a 12-link chain alternating with cut versions of itself; (policy-long) 15…1000 always-true statements around the deciding one; (fresh-nbf, iat-future) constructed delegations with not-before = now, invocations issued in the future over not-yet-active links; (shared-policies) delegations built from policy slices that share one backing array; IsValidAt probes at years 1…100000 and 2^53-1 s. Non-trivial = the chain has ≥ 1 link and at most two clause groups fail. Distinct = distinct protocol lines.",
+		rule: "real signed delegations (sealed, then decoded) and invocations over a pool of 5 Ed25519 principals, checked with ExecutionAllowed / ExecutionAllowedWithArgsHook against a map-backed loader. Families: (principals) every chain of ≤ K links (K=2 quick, 3 thorough) over every (issuer, audience, subject∈{0,1,2,absent}) assignment × every invocation (issuer, subject) with a varying audience; (commands) conforming chains of 1–3 links with every assignment of a 6-command lattice (top, parent, child, sibling, shared textual prefix) to invocation and links; (time) every present/absent/past/future combination of not-before and expiration on the invocation and each link; (policy) constraining statements distributed over every link × argument maps, with and without an argument hook (replacing, failing); (random) chains of ≤ 8 (40 thorough) links with 0–2 deviations of any kind at any position, missing and duplicated proofs, irrelevant fields varied; (histories) the same invocation token validated several times while the loader's content, the argument hook and the wall clock (a bound two seconds away) change between validations. Added later: every scenario is decided FIVE ways on one token (twice in a row; through the hook entry point with an identity hook; with a hook that first validates an unrelated invocation; with a hook that first validates the scenario's repaired twin) and each verdict is held against the model; after construction the caller adds a key to the Args value it handed in (the token must not change); (twins) principals 5–9 = the key bytes of 0–4 under another key-type codec at every naming position; (key-types) RSA, P-256 and secp256k1 principals at every role, delegations decoded and as constructed; (command-pairs) every ordered pair of valid commands ≤ 4 (5) bytes over {/,a,b} as delegated/invoked and root/leaf, decided one after the other; (after-root, variant-cid, long-then-cut) proofs listed after the root, links named by another CID over the same digest, a 12-link chain alternating with cut versions of itself; (policy-long) 15…1000 always-true statements around the deciding one; (fresh-nbf, iat-future) constructed delegations with not-before = now, invocations issued in the future over not-yet-active links; (shared-policies) delegations built from policy slices that share one backing array; IsValidAt probes at years 1…100000 and 2^53-1 s.; (policy-optional) every operator over an optional selector on missing, null and present arguments at every link; (policy-neighbours) neighbouring links with policies of the same shape over different arguments; (time-far) bounds some 285 years away; (command-multibyte) commands with multi-byte characters sharing prefixes that end inside or right after a character. Non-trivial = the chain has ≥ 1 link and at most two clause groups fail. Distinct = distinct protocol lines.",
 		run:  runChainStream,
 		eval: evalChain,
 		cmp:  cmpChain,
@@ -881,6 +881,98 @@ func runChainStream(c *ctx) error {
 				s.links[0].cmd = o
 				s.cmd = o
 				c.emitScenario(s, "command-pairs")
+			}
+		}
+	}
+	// (4b) optional selectors over a missing, a null and a present value, for every operator, at every link of 1- and 2-link
+	// chains: a statement over missing OPTIONAL data passes (every operator alike), one over a null value is evaluated on null
+	// (the arguments keep their null entries), and the verdict is the conjunction over all links
+	{
+		zq := hxs(".z?")
+		optPols := []string{
+			"P(ceq(" + zq + ",i10))", "P(cgt(" + zq + ",i10))", "P(cge(" + zq + ",i10))", "P(clt(" + zq + ",i10))", "P(cle(" + zq + ",i10))",
+			"P(k(" + zq + "," + hxs("x*") + "))", "P(!(ceq(" + zq + ",i10)))", "P(A(" + zq + ",cgt(2e,i0)))", "P(E(" + zq + ",cgt(2e,i0)))",
+			"P(cle(" + hxs(".z") + ",i10))", "P(cle(" + zq + ",i10);cge(" + hxs(".y?") + ",i1))",
+		}
+		optArgs := []string{"m()", "m(7a:n)", "m(7a:i5)", "m(7a:i50)", "m(79:n,7a:i5)", "m(7a:s78)", "m(7a:l(i1,i2))", "m(7a:l())"}
+		for n := 1; n <= 2; n++ {
+			for pos := 0; pos < n; pos++ {
+				for _, pl := range optPols {
+					for _, a := range optArgs {
+						s := conforming(n)
+						s.links[pos].pol = pl
+						s.args = a
+						c.emitScenario(s, "policy-optional")
+						if n == 2 {
+							t := conforming(n)
+							t.links[pos].pol = pl
+							t.links[1-pos].pol = optPols[4]
+							t.args = a
+							c.emitScenario(t, "policy-optional")
+						}
+					}
+				}
+			}
+		}
+		// neighbouring links whose policies have the same shape (one statement of one kind each) over different arguments
+		for _, pair := range [][2]string{
+			{"P(ceq(2e61,i1))", "P(ceq(2e62,s78))"}, {"P(cgt(2e61,i0))", "P(cgt(2e62,i0))"}, {"P(ceq(2e61,i1))", "P(ceq(2e61,i2))"},
+			{"P(k(2e62," + hxs("x*") + "))", "P(k(2e63," + hxs("y*") + "))"},
+		} {
+			for _, a := range []string{"m(61:i1,62:s78)", "m(61:i1,62:s79)", "m(61:i2,62:s78)", "m(61:i1,62:i5)", "m(61:i1,62:i0)", "m(61:i1,62:s78,63:s79)", "m(61:i1,62:s78,63:s78)"} {
+				for n := 2; n <= 3; n++ {
+					for pos := 0; pos+1 < n; pos++ {
+						s := conforming(n)
+						s.links[pos].pol, s.links[pos+1].pol = pair[0], pair[1]
+						s.args = a
+						c.emitScenario(s, "policy-neighbours")
+						s2 := conforming(n)
+						s2.links[pos].pol, s2.links[pos+1].pol = pair[1], pair[0]
+						s2.args = a
+						c.emitScenario(s2, "policy-neighbours")
+					}
+				}
+			}
+		}
+	}
+	// (3c) bounds a long way off: expirations some 285 years ahead (beyond what a nanosecond count in 64 bits can hold) and
+	// not-before bounds as far back, on the invocation and on each link of conforming chains: still valid now
+	for n := 1; n <= 3; n++ {
+		for pos := -1; pos < n; pos++ {
+			s := conforming(n)
+			if pos < 0 {
+				s.exp = "9000000000"
+			} else {
+				s.links[pos].exp = "9000000000"
+			}
+			c.emitScenario(s, "time-far")
+			if pos >= 0 {
+				t := conforming(n)
+				t.links[pos].exp = "9000000000"
+				t.links[pos].nbf = "-9000000000"
+				c.emitScenario(t, "time-far")
+				u := conforming(n)
+				u.links[pos].nbf = "-9000000000"
+				u.links[(pos+1)%n].exp = "-7200"
+				c.emitScenario(u, "time-far")
+			}
+		}
+	}
+	// (2c) commands with multi-byte characters: byte length ≠ character count; shared prefixes that end inside or right after
+	// a multi-byte character
+	{
+		mb := []string{"/", "/é", "/éé", "/éé/x", "/éé/xyz", "/éé/x/y", "/é/é", "/ééé", "/ほげ", "/ほげ/ふが", "/ほげふ", "/e/x", "/éé/é"}
+		for _, d := range mb {
+			for _, o := range mb {
+				s := conforming(1)
+				s.links[0].cmd = d
+				s.cmd = o
+				c.emitScenario(s, "command-multibyte")
+				t := conforming(2)
+				t.links[1].cmd = d
+				t.links[0].cmd = o
+				t.cmd = o
+				c.emitScenario(t, "command-multibyte")
 			}
 		}
 	}
